@@ -55,6 +55,7 @@ def parsePop : List String → Option Pop
   | ["F", t, f, ad] => some (.fault (natD t) (natD f) (ad == "a"))
   | ["C", t, f] => some (.cancel (natD t) (natD f))
   | ["A", t, k] => some (.healall (natD t) (natD k))
+  | ["V", t, v] => some (.setcap (natD t) (natD v))
   | ["J", t, j, ac] => some (.job (natD t) (natD j) (ac == "c"))
   | ["S", t, j, k] => some (.sink (natD t) (natD j) (natD k))
   | ["N", t, p, "s"] => some (.nsend (natD t) (natD p))
@@ -66,6 +67,7 @@ def showPop : Pop → String
   | .fault t f a => s!"F {t} {f} {if a then "a" else "d"}"
   | .cancel t f => s!"C {t} {f}"
   | .healall t k => s!"A {t} {k}"
+  | .setcap t v => s!"V {t} {v}"
   | .job t j c => s!"J {t} {j} {if c then "c" else "a"}"
   | .sink t j k => s!"S {t} {j} {k}"
   | .nsend t p => s!"N {t} {p} s"
@@ -85,7 +87,7 @@ def showSettings (c : Case) (s : St) : String :=
   let L := c.links.map fun l => toString (s.ws.latOf l.lat l.a l.b)
   let X := c.links.map fun l => toString (s.ws.lossOf l.loss l.a l.b)
   joinSp (["P", if P.isEmpty then "-" else P, "L"] ++ L ++ ["X"] ++ X ++
-          ["C", toString (s.ws.capOf c.cap), toString s.avail])
+          ["C", toString (s.ws.capOf s.base), toString s.avail])
 
 def modelLines (c : Case) : St → List Pop → List String
   | s, [] => [s!"Z | {showSettings c s} | pending {pending c s}"]
@@ -96,6 +98,7 @@ def modelLines (c : Case) : St → List Pop → List String
       | .fault .. => s!"{showPop p} | {if r.2.isEmpty then showSettings c r.1 else showToks r.2}"
       | .cancel .. => s!"{showPop p} | {showSettings c r.1}"
       | .healall .. => s!"{showPop p} | {showSettings c r.1}"
+      | .setcap .. => s!"{showPop p} | {showSettings c r.1}"
       | .nsend .. => s!"{showPop p} | {showToks r.2} | {showSettings c r.1}"
       | _ => s!"{showPop p} | {showToks r.2}"
     line :: modelLines c r.1 rest
@@ -140,6 +143,7 @@ def parseObs (line : String) : Option Obs :=
         | none => some ⟨p, normToks s, none⟩
       | .cancel .., [s] => some ⟨p, [], parseSettings s⟩
       | .healall .., [s] => some ⟨p, [], parseSettings s⟩
+      | .setcap .., [s] => some ⟨p, [], parseSettings s⟩
       | .nsend .., [f, s] => some ⟨p, normToks f, parseSettings s⟩
       | _, [t] => some ⟨p, normToks t, none⟩
       | _, _ => some ⟨p, [], none⟩
